@@ -36,6 +36,12 @@ RMBODY = {
     "noparams": ("unreachable", r"^parser::request::ParamsState::drive /"),
     # sequential model: a std Mutex is never contended (spin loop unreachable)
     "nocontend": ("unreachable", r"^std::sys::sync::mutex::futex::Mutex::lock_contended /"),
+    # dropping a parser::Request (hashbrown walks all control groups of the - here always empty - environment map):
+    # the drop becomes a no-op (a leak), like every other E6 forget
+    "nodropreq": ("noop", r"^std::ptr::drop_glue::<parser::Request> /"),
+    # single-task harnesses: the futures Mutex is never contended, so nobody ever queues for it.  The waiter-queue
+    # functions must be unreachable (proved); without the cut one uncontended lock/unlock costs 4.2 M symex steps
+    "nowaiters": ("unreachable", r"^slab::Slab::<.*>::insert /|^slab::Slab::<.*>::iter_mut /|^slab::Slab::<.*>::remove /|^slab::Slab::<.*>::try_remove /|^std::sys::sync::mutex::futex::Mutex::lock_contended /|^std::sys::sync::mutex::futex::Mutex::wake /"),
     "nogrow": ("unreachable", r"raw_vec::RawVecInner::grow_amortized /|raw_vec::RawVecInner::grow_exact /|SmallVec::<.*>::try_grow /"),
 }
 
@@ -317,7 +323,8 @@ def run_replay(h, crate, rpath, names, rundir):
     """Attach the replay file to the harness module of the scratch crate and run the tests natively."""
     src = os.path.join(crate, "src", h.file)
     s = open(src).read()
-    marker = "pub(crate) mod verif_kani { include!(\"%s\");" % scratch.harness_files()[h.file]
+    snap = os.path.join(os.path.dirname(crate), "harness", h.file)
+    marker = "pub(crate) mod verif_kani { include!(\"%s\");" % snap
     if marker not in s:
         return None, "harness module marker not found"
     s2 = s.replace(marker, marker + " include!(\"%s\");" % rpath)
@@ -400,6 +407,7 @@ def main(argv):
     ap.add_argument("--keep", action="store_true")
     ap.add_argument("--replay", default=None, help="re-run a stored replay file natively")
     ap.add_argument("--no-evidence", action="store_true")
+    ap.add_argument("--patch", action="append", default=[], help="development aid: apply a patch to the scratch copy (never to /repo); implies --no-evidence")
     a = ap.parse_args(argv)
     prop = a.prop
     seed = int(os.environ.get("VERIF_SEED", "0") or 0)
@@ -429,7 +437,9 @@ def main(argv):
                     files.add(m.group(1)); grew = True
     files = sorted(files)
     try:
-        rundir, crate = scratch.make_scratch(run_id, files)
+        if a.patch:
+            a.no_evidence = True
+        rundir, crate = scratch.make_scratch(run_id, files, a.patch)
     except FileNotFoundError as e:
         print("INCONCLUSIVE property=%s: repository file for a harness is missing: %s" % (prop, e))
         write_evidence(prop, a, seed, t0, sel, {}, [], [], ["source file missing: %s" % e], None)
